@@ -42,6 +42,8 @@ pub struct Bias {
     pub w_join: u32,
     /// generate the server read-policy configuration (default policy, allow_client_override)
     pub gen_read_config: bool,
+    /// clients poll cluster metadata from every node in half of the scenarios
+    pub poll_metadata: bool,
     /// weight of the slow-disk event (persist_entries takes virtual time)
     pub w_disk_lag: u32,
     /// allow power-loss crashes (only synced data survives); off for every cluster-level property
@@ -86,6 +88,7 @@ impl Default for Bias {
             learners: 0,
             w_join: 0,
             gen_read_config: false,
+            poll_metadata: false,
             w_disk_lag: 0,
             power_loss: false,
         }
@@ -227,6 +230,8 @@ pub fn scenario(b: &Bias) -> BoxedStrategy<Scenario> {
             final_reads: b.final_reads,
             raw_crashes: b.raw_crashes,
             probe_recovery: b.probe_recovery,
+            // half of the polled scenarios poll faster than any election timeout (80 ms is the smallest election_min)
+            poll_ms: if b.poll_metadata { if seed % 2 == 0 { 10 + (seed % 40) as u16 } else { 0 } } else { 0 },
         })
         .boxed()
 }
